@@ -3,6 +3,11 @@
 import json, subprocess, sys
 
 claimed = {
+ "C09": dict(
+   text="Deductive proof that key comparison is the lexicographic order over flattened fields with the string fallback (less is verified against the reference lessFrom, missing values reading as empty), and that this order is irreflexive, asymmetric, transitive and total on keys that differ in some flattened field — four property lemmas proved by induction on the field index from the assumption that every field comparator is a total preorder.  The comparators themselves are under contract: alpha is bytewise, num is numOrder over the parsed numbers (numbers first, NaN last), fixed-list and first-observation comparators are rank differences; numOrder and rank difference are proved total preorders.  The fuzzy number parser, the flattened-field cache (sync.Once, recursive closure) and the observation counters are outside the subset: covered by a bounded stand-in (which exposed the missing ranks of .config sub-fields — fixed).",
+   note="Trusted: parseNum is a function of its argument; strings.Compare spec; calls through function values with scalar signatures are pure functions of (function value, arguments); the link between a Field's cmp value and the comparator functions under contract is by construction in makeProjection (not proved); sort.Slice sorts with respect to a strict weak order.",
+   technique="contract-based deductive verification with ghost lemma functions (induction = recursive ghost call) over go/ssa; z3/cvc5; bounded stand-in for the number parser and field cache",
+   design="5/C09"),
  "C13": dict(
    text="Deductive proof of the comparison and rendering contracts of benchmath: all three Compare methods report both sample sizes; the two testing models carry the samples' threshold on every return (the obligation that exposed the missing Alpha in AssumeNormal.Compare — fixed) and report P == 1 with exactly one warning when the underlying test errs; FormatDelta renders '~' exactly when P > Alpha, '0.00%', '?' and otherwise (new/old-1)*100 — as an identity between floating-point terms, for all float64 inputs; PctRangeString's four cases; the median-CI cache returns QuantileCI of exactly the requested (n, confidence).  The statistical content (p in [0,1], symmetry, exact permutation p-value, invariances) lives in the external module go-moremath: covered by a bounded stand-in only; its failure on tied samples is a known finding (not repairable in /repo).",
    note="Trusted: lib specs of go-moremath (shape of results only), math.IsInf/Max, mathx.Sign, sync.Map; fmt.Sprintf/Errorf are uninterpreted functions of format and operands; the Summary methods are not yet under contract.",
